@@ -43,15 +43,18 @@ theorem rel_mask_is_the_six_relations :
     enumIndex "tokeq" = some 14 ∧ enumIndex "tokne" = some 19 := by
   decide +kernel
 
-/-- the operator masks of `term`, `sexpr`, `expr` name exactly the operators of their level, every masked
-enumerator is below 32 (the code tests `kind < 32` before shifting), and AND/OR/XOR/MOD/NOT precede 32 too -/
+/-- the operator masks of `term`, `sexpr`, `expr` name exactly the operators of their level; the guard `kind < N` in
+front of every `1L << kind` test fits the width of `long` (`N ≤ 64`), every masked enumerator — and the relational
+range — lies below `N` (so the guard never cuts an operator off), and so do the separators tested by PRINT/PUNCH/SAVE -/
 theorem loop_masks :
     BasicTokens.mask_term = ["toktimes", "tokdiv", "tokmod"] ∧
     BasicTokens.mask_sexpr = ["tokplus", "tokminus"] ∧
     BasicTokens.mask_expr = ["tokor", "tokxor"] ∧
-    (["toktimes", "tokdiv", "tokmod", "tokplus", "tokminus", "tokor", "tokxor", "tokand", "toksemi", "tokcomma"].all
+    BasicTokens.maskBits ≤ 64 ∧
+    (["toktimes", "tokdiv", "tokmod", "tokplus", "tokminus", "tokor", "tokxor", "tokand", "toksemi", "tokcomma",
+      "tokeq", "toklt", "tokgt", "tokle", "tokge", "tokne"].all
       fun t => match enumIndex t with
-        | some i => i < 32
+        | some i => i < BasicTokens.maskBits
         | none => false) = true := by
   decide +kernel
 
